@@ -299,6 +299,7 @@ func (e *Engine) execInstr(st *State, b *ssa.BasicBlock, idx int, in ssa.Instruc
 	case *ssa.Lookup:
 		xv := e.reg(st, x.X)
 		if m, ok := x.X.Type().Underlying().(*types.Map); ok {
+			e.runAts(st, in, false)
 			k := e.asTerm(st, e.coerce(e.reg(st, x.Index), m.Key()))
 			hn, hs, vn, vs := e.mapHeapNames(m)
 			h := e.heapGet(st, hn, hs)
